@@ -17,8 +17,8 @@ from ..symreal.core import S, symarr, vjp, new_session, evalarr
 from ..symreal.discharge import prove_equal
 from ..symreal.pool import run_catalogue
 
-ALPHABET = ["B0", "B1", "B2", "B3", "B4", "B5", "B6", "B7", "B8", "B9", "B10", "B11", "B12", "BN_train", "REG_d", "REFUSED_last", "BW_last", "BW_prev", "BW_int", "BW_leaf_a", "BWG_last", "BWR_last", "BWR_int", "RET_int", "RET_last", "AUG_c", "Z_a", "Z_mod", "Z_opt"]
-DESCR = {"B9": "sum_k w_k * stack([c, a, c, b])[k]  (constants in front of and between the operands that require grad)", "B10": "eval-mode BatchNorm1d over the batch (a, b), weighted sum",
+ALPHABET = ["B0", "B1", "B2", "B3", "B4", "B5", "B6", "B7", "B8", "B9", "B10", "B11", "B12", "B13", "B14", "BN_train", "REG_d", "REFUSED_last", "BW_last", "BW_prev", "BW_int", "BW_leaf_a", "BWG_last", "BWR_last", "BWR_int", "RET_int", "RET_last", "AUG_c", "Z_a", "Z_mod", "Z_opt"]
+DESCR = {"B13": "weighted blocks of concat([a, c, b]) (flattened operands)", "B14": "sum(j*j) over the join j of the previous B13 (a second root sharing the join)", "B9": "sum_k w_k * stack([c, a, c, b])[k]  (constants in front of and between the operands that require grad)", "B10": "eval-mode BatchNorm1d over the batch (a, b), weighted sum",
          "BN_train": "a training-mode forward through that layer on other data (rewrites its running statistics)", 
     "B0": "r = a * b", "B1": "m = a + b; r = m * a", "B2": "r = sum(a * a)", "B3": "r = <previous result> * b  (reuse of an earlier result)", "B4": "m = exp(b); r = m * c", "B5": "u = unbind(a); r = u[0] * b + u[1] + a   (multi-output op whose operand is also used directly)",
     "B7": "r = a * d   (d: a parameter that is registered in a nested module only by event REG_d)", "REG_d": "module.inner.pd = d   (registration after the module may already have been queried)",
@@ -142,6 +142,16 @@ class World:
             # a join of operands that do and do not require grad, the constant ones in front and in between; each slice gets its own weight so upstream slices differ
             st = F.stack([c, a, c, b], 0)
             self.results.append(st[0] * 2.0 + st[1] * 3.0 + st[2] * 5.0 + st[3] * 7.0)
+        elif ev == "B13":
+            # a concat of tracked operands and a constant, reshaped per operand so that each block of the join has its own weight; swept more than once by the histories
+            j = F.concat([F.reshape(a, (-1,)), F.reshape(c, (-1,)), F.reshape(b, (-1,))], 0)
+            n_ = int(np.prod(self.shape)) if self.shape else 1
+            self.interiors.append(j)
+            self.results.append(F.reshape(j[0:n_] * 2.0 + j[n_:2 * n_] * 3.0 + j[2 * n_:3 * n_] * 5.0, self.shape))
+        elif ev == "B14":
+            # a second root over the join of the previous B13 (two roots sharing one join node)
+            j = self.interiors[-1] if self.interiors else F.concat([F.reshape(a, (-1,)), F.reshape(b, (-1,))], 0)
+            self.results.append(F.sum(j * j))
         elif ev == "B10":
             # an eval-mode batch norm over (a, b) as a batch of two samples; the layer's running statistics are rewritten by the event BN_train before this graph is swept
             from synapgrad.tensor import Tensor
@@ -488,7 +498,7 @@ def histories(tier, seed):
     maxlen = 3
     for n in range(1, maxlen + 1):
         for h in itertools.product(ALPHABET, repeat=n):
-            if h[0] not in ("B0", "B1", "B2", "B3", "B4", "B5", "B6", "B7", "B8", "B9", "BW_leaf_a", "Z_a", "Z_mod", "Z_opt") or "B10" in h or "BN_train" in h or "B11" in h or "B12" in h:
+            if h[0] not in ("B0", "B1", "B2", "B3", "B4", "B5", "B6", "B7", "B8", "B9", "BW_leaf_a", "Z_a", "Z_mod", "Z_opt") or "B10" in h or "BN_train" in h or "B11" in h or "B12" in h or "B13" in h or "B14" in h:
                 continue
             if not any(e.startswith("BW") for e in h):
                 continue
@@ -532,6 +542,10 @@ def histories(tier, seed):
     # an interior tensor feeding an op directly and through a second path listed later; a leaf reported only by an overridden parameters()
     for h in (("B11", "BW_last"), ("B11", "BW_last", "BW_last"), ("B11", "RET_int", "BW_last", "BW_int"), ("B11", "BWR_last", "Z_a", "BW_last"),
               ("B12", "BW_last", "Z_mod", "B12", "BW_last"), ("B12", "BW_last", "Z_mod"), ("B12", "BW_last", "Z_opt", "BW_last", "Z_mod", "BW_last")):
+        hs.append(h)
+    # a join node swept by more than one backward call: the same root twice, after a reset, through a retained interior, and through two roots that share it
+    for h in (("B13", "BW_last", "BW_last"), ("B13", "BW_last", "Z_a", "BW_last"), ("B13", "BWR_last", "BW_last", "BW_last"), ("B13", "B14", "BW_last", "BW_prev"),
+              ("B13", "B14", "BW_prev", "BW_last", "BW_last"), ("B13", "RET_int", "BW_last", "BW_int")):
         hs.append(h)
     # late registration: the module is queried (zero_grad) before and after a parameter is attached to a nested module
     for pre in (("Z_mod",), ("B7", "BW_last", "Z_mod"), ()):
